@@ -14,10 +14,71 @@ import (
 type (
 	Locker = sync.Locker
 	Once   = sync.Once
-	Pool   = sync.Pool
-	Map    = sync.Map
 	Cond   = sync.Cond
 )
+
+// Map is sync.Map with every operation announced to the scheduler (each is atomic on its own, but a sequence such as
+// Load-then-Store is not: another thread must be able to run in between).
+type Map struct{ m sync.Map }
+
+func (m *Map) pt() { vsched.Point(vsched.OpAtomic, uintptr(unsafe.Pointer(m)), 0) }
+
+func (m *Map) Load(key any) (any, bool)               { m.pt(); return m.m.Load(key) }
+func (m *Map) Store(key, value any)                   { m.pt(); m.m.Store(key, value) }
+func (m *Map) LoadOrStore(key, value any) (any, bool) { m.pt(); return m.m.LoadOrStore(key, value) }
+func (m *Map) LoadAndDelete(key any) (any, bool)      { m.pt(); return m.m.LoadAndDelete(key) }
+func (m *Map) Delete(key any)                         { m.pt(); m.m.Delete(key) }
+func (m *Map) Swap(key, value any) (any, bool)        { m.pt(); return m.m.Swap(key, value) }
+func (m *Map) CompareAndSwap(key, old, new any) bool {
+	m.pt()
+	return m.m.CompareAndSwap(key, old, new)
+}
+func (m *Map) CompareAndDelete(key, old any) bool { m.pt(); return m.m.CompareAndDelete(key, old) }
+func (m *Map) Range(f func(key, value any) bool)  { m.pt(); m.m.Range(f) }
+func (m *Map) Clear()                             { m.pt(); m.m.Clear() }
+
+// Pool is sync.Pool with Get and Put announced to the scheduler. Under the scheduler Get hands out the most recently Put
+// object (the real pool may return anything or nothing; a shared object is the interesting case).
+type Pool struct {
+	New func() any
+	p   sync.Pool
+	mu  sync.Mutex
+	lst []any
+}
+
+func (p *Pool) Get() any {
+	if vsched.Point(vsched.OpAtomic, uintptr(unsafe.Pointer(p)), 0) {
+		p.mu.Lock()
+		if n := len(p.lst); n > 0 {
+			x := p.lst[n-1]
+			p.lst = p.lst[:n-1]
+			p.mu.Unlock()
+			return x
+		}
+		p.mu.Unlock()
+		if p.New != nil {
+			return p.New()
+		}
+		return nil
+	}
+	if x := p.p.Get(); x != nil {
+		return x
+	}
+	if p.New != nil {
+		return p.New()
+	}
+	return nil
+}
+
+func (p *Pool) Put(x any) {
+	if vsched.Point(vsched.OpAtomic, uintptr(unsafe.Pointer(p)), 0) {
+		p.mu.Lock()
+		p.lst = append(p.lst, x)
+		p.mu.Unlock()
+		return
+	}
+	p.p.Put(x)
+}
 
 func NewCond(l Locker) *Cond { return sync.NewCond(l) }
 
